@@ -117,6 +117,8 @@ class DownloadFile:
         use_by_hash: bool,
     ):
         download_file = DownloadFile.from_path(cls.uncompressed_path(path))
+        # Drop the unsized placeholder variant: only listed variants may be used
+        download_file.compression_variants.clear()
         download_file.add_compression_variant(
             path=path,
             size=size,
